@@ -646,7 +646,12 @@ class Ref:
         ws = self.res_writes.get(key, [])
         if not ws:
             return {None}
-        return {t for (t, i, r) in ws if not any(r < i2 for (_t2, i2, _r2) in ws)}
+        latest = {t for (t, i, r) in ws if not any(r < i2 for (_t2, i2, _r2) in ws)}
+        # results parsed from NONMEM output files stored next to the model take precedence over
+        # results.json in pharmpy (get_modelfit_results): once such files are acknowledged their
+        # results stay acceptable whatever is stored afterwards
+        nm = set(NMRES.values())
+        return latest | {t for (t, _i, _r) in ws if t in nm}
 
     def annotation_candidates(self, name):
         """Linearizable outcomes: the text of any acknowledged write that is not definitely
